@@ -27,6 +27,10 @@ def history_pool():
     # modules given by a host Importable as bytes, array, sync map, map, error: changed in place by the script
     P.append(("module-values-changed", "b := import(\"cbytes\")\na := import(\"carr\")\ns := import(\"csm\")\nm := import(\"cmap\")\ne := import(\"cerr\")\n"
               "b[0] += 10\na[0] = 99\na[1][0] = 98\ns.k = 5\ns.inner.z = 1\nm.x += 1\nm.b[0] = 0\ne.Message = \"changed\"\nreturn [b, a, s.k, len(s.inner), m.x, m.b, string(e)]", 0))
+    # aborted while a script callback runs on a pooled child VM of a Go function (strings.Map): the child goes back to the pool
+    P.append(("abort-in-pooled-callback", "S := import(\"strings\")\nreturn S.Map(func(c) { for { } }, \"abc\")", 15))
+    P.append(("abort-in-nested-pooled-callback", "S := import(\"strings\")\nf := func(c) { return S.Map(func(d) { for { } }, \"xy\") }\nreturn S.Map(f, \"abc\")", 15))
+    P.append(("error-in-pooled-callback", "S := import(\"strings\")\nreturn S.Map(func(c) { return c / 0 }, \"abc\")", 0))
     P.append(("try-left-open", "for i := 0; i < 3; i++ { try { if i == 1 { continue }; x := i } finally { y := 1 } }\nreturn [][0]", 0))
     P.append(("many-locals", "\n".join("v%d := %d" % (i, i) for i in range(200)) + "\nreturn v0 / 0", 0))
     return P
@@ -77,6 +81,7 @@ OBS = [
  ("a := 1\nb := func() { a += 1; return a }\nreturn [b(), b(), a]", []),
  ("return undefined", []),
  ("b := import(\"cbytes\")\na := import(\"carr\")\ns := import(\"csm\")\nm := import(\"cmap\")\ne := import(\"cerr\")\nb[0] += 10\na[1][0] += 1\ns.k += 1\nm.x += 1\nm.b[0] += 1\nreturn [b, a, s.k, len(s.inner), m.x, m.b, string(e)]", []),
+ ("S := import(\"strings\")\nk := 0\nreturn [S.Map(func(c) { k++; return c + 1 }, \"abc\"), S.TrimFunc(\"  x \", func(c) { return c == ' ' }), S.Map(func(c) { return S.Map(func(d) { return d }, \"q\")[0] }, \"ab\"), k]", []),
  ("global (gx, gy)\nreturn [gx, gy]", []),
  ("global gx\nf := func() { return gx }\nreturn [f(), gx == undefined]", []),
 ]
@@ -109,6 +114,19 @@ def run(rep, br, proofs, rng, tier):
                     hexs(obs.encode()), ["args"] + args, *[hexs(m.encode()) for m in MODS])
         c["hist"], c["obs"], c["rec"] = [h[0] for h in hist], obs, rec
         cases.append(c)
+    # directed: every history that ends inside a script callback on a pooled child VM, followed by a script using pooled
+    # callbacks, all runs on one goroutine (the pool hands the child of the earlier run to the later one)
+    pooled = [h for h in P if "pooled-callback" in h[0]]
+    obs_cb = [o for o in OBS if "S.Map" in o[0]][0]
+    for j, h in enumerate(pooled):
+        for rec in ("1s", "0s", "1sn"):
+            for clear in ("0", "1"):
+                for rep_ in range(2):
+                    hist = [h] * (rep_ + 1)
+                    c = mk_case("dir%d.%s.%s.%d" % (j, rec, clear, rep_), "history", rec, ["hist"] + [[hexs(s.encode()), clear, str(ms)] for (_, s, ms) in hist],
+                                hexs(obs_cb[0].encode()), ["args"], *[hexs(m.encode()) for m in MODS])
+                    c["hist"], c["obs"], c["rec"] = [x[0] for x in hist], obs_cb[0], rec
+                    cases.append(c)
     impl, culprits = vlib.run_impl_robust(cases, batch=40, timeout=120)
     fails, compared, kinds = [], 0, {}
     for c, how in culprits: fails.append((c, "the harness did not return (%s)" % how))
@@ -124,7 +142,11 @@ def run(rep, br, proofs, rng, tier):
             kinds[hname] = kinds.get(hname, 0) + 1
         if "(timeout)" in fresh: continue
         compared += 1
-        if used != fresh:
+        base = vlib.sexp_str(sx[6][1]) if len(sx) > 6 else fresh
+        if "(timeout)" in base: continue
+        if fresh != base:
+            fails.append((c, "after the history %s the script gives %s on a NEW VM; before the history a new VM gave %s (state kept outside the VM, e.g. in the pool of child VMs)" % (c["hist"], fresh[:300], base[:300])))
+        elif used != fresh:
             fails.append((c, "after the history %s the script gives %s on the used VM and %s on a new VM" % (c["hist"], used[:300], fresh[:300])))
         elif again != fresh:
             fails.append((c, "running the same Bytecode again on the used VM gives %s, a new VM gives %s" % (again[:300], fresh[:300])))
@@ -134,7 +156,7 @@ def run(rep, br, proofs, rng, tier):
         rep.violation({"property": "C07", "kind": "oracle", "why": why, "case": c["line"][:3000], "script": c["obs"], "history": c["hist"]})
     rep.coverage.update({
         "evaluations": len(cases), "distinct_nontrivial": compared,
-        "rule": "histories of 1-4 runs on one VM, half of them composed (a chain of 1-4 frames, each leaving per-frame state behind: a frame re-used by a discarded or returned self tail call, open try handlers, inside catch / finally / a loop with an unfinished try; the innermost frame ends the run by throw, runtime error, Go callback panic, abort, frame overflow), half drawn from 16 fixed termination shapes (return, closures left on the stack, uncaught error at depth 0 and 200, errors inside nested try/finally, recovered and escaping Go callback panics, frame overflow, value-stack overflow by recursion and by a wide literal, abort of loops, module cache, unfinished try in a loop, 200 locals, values left in globals), each optionally followed by Clear, recovery on or off, Run given a fresh globals object or none; then an observed script (fixed shapes with parameters, modules, recursion, try, closures, or a generated program) is run twice on the used VM and once on a new VM; non-trivial = the three outcomes and the Bytecode digests were compared",
+        "rule": "histories of 1-4 runs on one VM, half of them composed (a chain of 1-4 frames, each leaving per-frame state behind: a frame re-used by a discarded or returned self tail call, open try handlers, inside catch / finally / a loop with an unfinished try; the innermost frame ends the run by throw, runtime error, Go callback panic, abort, frame overflow), half drawn from 16 fixed termination shapes (return, closures left on the stack, uncaught error at depth 0 and 200, errors inside nested try/finally, recovered and escaping Go callback panics, frame overflow, value-stack overflow by recursion and by a wide literal, abort of loops, abort and errors inside script callbacks running on pooled child VMs, module cache, unfinished try in a loop, 200 locals, values left in globals), each optionally followed by Clear, recovery on or off, Run given a fresh globals object or none; then an observed script (fixed shapes with parameters, modules, recursion, try, closures, or a generated program) is run on a new VM before the history, twice on the used VM and once more on a new VM afterwards; non-trivial = the three outcomes and the Bytecode digests were compared",
         "samples": [cases[0]["line"][:500]],
         "history_kinds": kinds, "oracle_failures": len(fails)})
 
